@@ -729,9 +729,72 @@ func SExt(a *Term, to int) *Term {
 // ---- arrays
 
 // provably distinct indices (syntactic)
+// allocation knowledge: idUpper[t] lists (base, k) with t < base + k; nextSyms are the symbols
+// standing for the allocation counter (all >= next0 > 4096).
+type idBound struct {
+	base *Term
+	k    uint64
+}
+
+var idUpper = map[*Term][]idBound{}
+var nextSyms = map[*Term]bool{}
+var nextGE = map[*Term]idBound{} // next symbol >= base + k
+
+func noteLess(t, next *Term) {
+	base, k, ok := splitAddConst(next)
+	if !ok || !nextSyms[base] {
+		return
+	}
+	for _, b := range idUpper[t] {
+		if b.base == base && b.k <= k {
+			return
+		}
+	}
+	idUpper[t] = append(idUpper[t], idBound{base, k})
+}
+
+// lessThanAlloc: is t known to be smaller than base + j ?
+func lessThanAlloc(t *Term, base *Term, j uint64) bool {
+	if t.IsConst() && t.Val < 4096 {
+		return true
+	}
+	for _, b := range idUpper[t] {
+		cb, ck := b.base, b.k
+		for depth := 0; depth < 8; depth++ {
+			if cb == base {
+				if ck <= j {
+					return true
+				}
+				break
+			}
+			// t < cb + ck ; is cb + ck <= base ?  follow base >= g.base + g.k downwards
+			g, ok := nextGE[base]
+			if !ok {
+				break
+			}
+			if g.base == cb && ck <= g.k {
+				return true
+			}
+			base, j = g.base, 0
+			if g.base == cb {
+				break
+			}
+		}
+	}
+	return false
+}
+
 func distinctIdx(a, b *Term) bool {
 	if a.IsConst() && b.IsConst() {
 		return a.Val != b.Val
+	}
+	if a.Sort.IsBV() && a.Sort.W == 64 {
+		if ba, ja, ok := splitAddConst(a); ok && nextSyms[ba] && lessThanAlloc(b, ba, ja) {
+			return true
+		}
+		if bb, jb, ok := splitAddConst(b); ok && nextSyms[bb] && lessThanAlloc(a, bb, jb) {
+			return true
+		}
 	}
 	if a.Sort.IsBV() {
 		ba, ca, ok := splitAddConst(a)
@@ -765,7 +828,96 @@ func Select(arr, idx *Term) *Term {
 		}
 		break
 	}
+	if arr.Op == "rowcopy" {
+		base, lo, src, slo, n := arr.Args[0], arr.Args[1], arr.Args[2], arr.Args[3], arr.Args[4]
+		in := And(SLe(lo, idx), SLt(idx, Add(lo, n)))
+		return Ite(in, Select(src, Add(slo, Sub(idx, lo))), Select(base, idx))
+	}
+	// an ite in the index: split on its condition and cofactor the array with it
+	if c := firstIteCond(idx); c != nil {
+		return Ite(c, Select(cofactor(arr, c, true), cofactor(idx, c, true)), Select(cofactor(arr, c, false), cofactor(idx, c, false)))
+	}
+	if arr.Op == "ite" && (reducible(arr.Args[1]) || reducible(arr.Args[2])) {
+		return Ite(arr.Args[0], Select(arr.Args[1], idx), Select(arr.Args[2], idx))
+	}
 	return mk(&Term{Op: "select", Sort: arr.Sort.Elem, Args: []*Term{arr, idx}})
+}
+
+func firstIteCond(idx *Term) *Term {
+	if idx.Op == "ite" {
+		return idx.Args[0]
+	}
+	if idx.Op == "bvadd" {
+		for _, a := range idx.Args {
+			if a.Op == "ite" {
+				return a.Args[0]
+			}
+		}
+	}
+	return nil
+}
+
+// cofactor: t under the assumption that condition c has the given truth value (ites on c are resolved)
+func cofactor(t *Term, c *Term, val bool) *Term {
+	cache := map[int]*Term{}
+	var rec func(t *Term) *Term
+	rec = func(t *Term) *Term {
+		if len(t.Args) == 0 {
+			return t
+		}
+		if r, ok := cache[t.id]; ok {
+			return r
+		}
+		var r *Term
+		switch t.Op {
+		case "ite":
+			if t.Args[0] == c {
+				if val {
+					r = rec(t.Args[1])
+				} else {
+					r = rec(t.Args[2])
+				}
+			} else {
+				r = Ite(t.Args[0], rec(t.Args[1]), rec(t.Args[2]))
+			}
+		case "bvadd", "store", "select", "rowcopy":
+			args := make([]*Term, len(t.Args))
+			ch := false
+			for i, a := range t.Args {
+				args[i] = rec(a)
+				if args[i] != a {
+					ch = true
+				}
+			}
+			if ch {
+				r = rebuild(t, args)
+			} else {
+				r = t
+			}
+		default:
+			r = t
+		}
+		cache[t.id] = r
+		return r
+	}
+	return rec(t)
+}
+
+// reducible: a select on this array term can make progress syntactically
+func reducible(a *Term) bool {
+	switch a.Op {
+	case "store", "rowcopy", "constarr", "ite":
+		return true
+	}
+	return false
+}
+
+// RowCopy: base with the window [lo, lo+n) replaced by src[slo ...]
+func RowCopy(base, lo, src, slo, n *Term) *Term {
+	if n.IsConst() && n.Val == 0 {
+		return base
+	}
+	return mk(&Term{Op: "rowcopy", Sort: base.Sort, Args: []*Term{base, lo, src, slo, n}})
 }
 
 func Store(arr, idx, v *Term) *Term {
@@ -874,6 +1026,8 @@ func rebase(bvars []*Term, body *Term) ([]*Term, *Term) {
 	return out, body
 }
 
+var rebaseEnabled = false
+
 func Forall(bvars []*Term, body *Term, pats ...[]*Term) *Term {
 	if !body.bound {
 		return body
@@ -881,7 +1035,7 @@ func Forall(bvars []*Term, body *Term, pats ...[]*Term) *Term {
 	if body.IsTrue() {
 		return True
 	}
-	if len(pats) == 0 {
+	if len(pats) == 0 && rebaseEnabled {
 		bvars, body = rebase(bvars, body)
 	}
 	t := mk(&Term{Op: "forall", Sort: BoolSort, Args: []*Term{body}, Bvars: bvars, Pats: pats})
@@ -1002,6 +1156,8 @@ func rebuild(t *Term, a []*Term) *Term {
 		return Store(a[0], a[1], a[2])
 	case "constarr":
 		return ConstArr(t.Sort, a[0])
+	case "rowcopy":
+		return RowCopy(a[0], a[1], a[2], a[3], a[4])
 	case "app":
 		return App(t.Name, t.Sort, a...)
 	case "forall":
@@ -1137,7 +1293,50 @@ func collect(roots []*Term) ([]*Term, map[int]int) {
 
 // SMTScript renders (assert a_i)... for the given assertions with shared
 // ground subterms hoisted into define-fun.
+// elimRowCopy replaces the remaining rowcopy terms by fresh constants with defining axioms.
+func elimRowCopy(asserts []*Term) []*Term {
+	for round := 0; round < 8; round++ {
+		order, _ := collect(asserts)
+		m := map[*Term]*Term{}
+		var ax []*Term
+		for _, t := range order {
+			if t.Op != "rowcopy" || t.bound {
+				continue
+			}
+			v := Fresh("rowcopy", t.Sort)
+			m[t] = v
+			base, lo, src, slo, n := t.Args[0], t.Args[1], t.Args[2], t.Args[3], t.Args[4]
+			j := Bound("j", t.Sort.Idx)
+			in := And(SLe(lo, j), SLt(j, Add(lo, n)))
+			ax = append(ax, mkForallRaw2([]*Term{j}, Implies(in, Eq(Select(v, j), Select(src, Add(slo, Sub(j, lo))))), [][]*Term{{Select(v, j)}}))
+			ax = append(ax, mkForallRaw2([]*Term{j}, Implies(Not(in), Eq(Select(v, j), Select(base, j))), [][]*Term{{Select(v, j)}}))
+		}
+		if len(m) == 0 {
+			return asserts
+		}
+		out := make([]*Term, 0, len(asserts)+len(ax))
+		for _, a := range ax {
+			out = append(out, Subst(a, m))
+		}
+		for _, a := range asserts {
+			out = append(out, Subst(a, m))
+		}
+		asserts = out
+	}
+	return asserts
+}
+
+func mkForallRaw2(bvars []*Term, body *Term, pats [][]*Term) *Term {
+	if !body.bound {
+		return body
+	}
+	t := mk(&Term{Op: "forall", Sort: BoolSort, Args: []*Term{body}, Bvars: bvars, Pats: pats})
+	t.bound = containsOtherBound(body, bvars)
+	return t
+}
+
 func SMTScript(asserts []*Term, extra []string) string {
+	asserts = elimRowCopy(asserts)
 	order, refs := collect(asserts)
 	var sb strings.Builder
 	sorts := map[string]bool{}
